@@ -251,11 +251,18 @@ def dup_shape(full_name: str) -> List[bool]:
 
 
 def judge_project(ctx: Ctx, system: Any, origin: str, model_rt: Dict[Tuple[bool, ...], Dict[str, bool]],
-                  stats: Dict[str, int], open_ids: List[str]) -> List[str]:
-    """Write the inventory of a real System, read it back with both readers, judge every object."""
+                  stats: Dict[str, int], open_ids: List[str], data: Optional[bytes] = None) -> List[str]:
+    """Write the inventory of a real System (unless its bytes are given), read it back with both readers, judge
+    every object."""
     from sphinx.util.inventory import InventoryFile
-    data, wlog = write_inventory(ctx, system)
-    lines = inventory_lines(data)
+    if data is None:
+        data, wlog = write_inventory(ctx, system)
+    try:
+        lines = inventory_lines(data)
+    except Exception as e:
+        ctx.violation({"invariant": "FileLoads", "origin": origin, "design_classes": [],
+                       "observed": {"payload": f"{type(e).__name__}: {e}"}, "key": f"fileloads:{origin}"})
+        lines = []
     reader, rlog, rexc = read_back(data)
     try:
         inv = InventoryFile.loads(data, uri=BASE)
@@ -486,7 +493,7 @@ def run(ctx: Ctx) -> int:
     for fid in FINDINGS:
         ctx.register_matcher(fid, kf_matcher(fid, open_ids))
     stats = {k: 0 for k in ("rows", "usable_rows", "lenient_rows", "objects", "updates", "drift", "violations", "file_rows",
-                            "superseded_not_listed", "byte_strings", "multi", "histories")}
+                            "superseded_not_listed", "byte_strings", "multi", "histories", "write_histories")}
     design: List[str] = []
 
     def tlc(mode: str, classes: List[str], maxcols: int = 0, maxdepth: int = 0, env: Optional[Dict[str, str]] = None,
@@ -654,6 +661,37 @@ def run(ctx: Ctx) -> int:
         if stats["multi"] % 100 == 1:
             ctx.sample({"urls": cfgm, "observed": obs})
 
+    # ---- several generate() calls in one process, through the same / different writer objects
+    from pydoctor import sphinx as _sphinx
+    projects = {"p1": build_system({"solo": "'doc'\nclass K:\n    'doc'\n    def f(self): 'd'\n"}),
+                "p2": build_system({"m": shape_source([False, True, True])[0], "n": "def g(): 'd'\nx = 1\n'doc'\n",
+                                    "caf\u00e9": "'doc'\nclass \u00c9lan:\n    'doc'\n"})}
+    r = tlc("writes", classes)
+    for hi, rec in enumerate(r.printed):
+        events = [dict(x) for x in seq(rec["cfg"])]
+        writers = {w: _sphinx.SphinxInventoryWriter(logger=Log(), project_name="p", project_version="1") for w in ("w1", "w2")}
+        stats["write_histories"] += 1
+        for k, e in enumerate(events, 1):
+            out = ctx.scratch / f"wr_{k}"
+            out.mkdir(exist_ok=True)
+            origin = f"writes:{[(x['w'], x['p']) for x in events[:k]]}"
+            ctx.traces += 1
+            try:
+                writers[e["w"]].generate(projects[e["p"]].rootobjects, str(out))
+            except Exception as ex:
+                stats["violations"] += 1
+                ctx.violation({"invariant": "GenerateNeverRaises", "origin": "writes", "events": events[:k], "design_classes": [],
+                               "observed": {"raised": f"{type(ex).__name__}: {ex}"}, "drift": True,
+                               "key": f"wraise:{k}:{events[k-1]['w'] in [x['w'] for x in events[:k-1]]}"})
+                continue
+            nv = len(ctx.violations) + sum(ctx.known_seen.values())
+            judge_project(ctx, projects[e["p"]], origin, {}, stats, open_ids, data=(out / "objects.inv").read_bytes())
+            if len(ctx.violations) + sum(ctx.known_seen.values()) != nv:
+                stats["drift"] += 1          # the model says every file is complete
+                ctx.drift_note({"writes": events[:k], "model": "file complete", "real": "see violation"})
+                for v in ctx.violations[-3:]:
+                    v.setdefault("events", events[:k])
+
     # ---- look-ups and loads in any order on one reader
     r = tlc("hist", classes)
     inv_bytes = {n: HEADER + zlib.compress(f"pkg.n{n} py:module -1 pkg.n{n}.html -\n".encode()) for n in (1, 2)}
@@ -771,6 +809,23 @@ def replay(ctx: Ctx, path: str) -> int:
             nm = " ".join(toks[p - 1] for p in seq(ref["name"]))
             bad = reader.getLink(nm) != expected_url(nm, toks[ref["loc"] - 1])
         print(f"replay: line {line!r} -> {real} / {effect}:", "still violated" if bad else "holds now")
+    elif str(w.get("origin", "")).startswith("writes") and w.get("events"):
+        from pydoctor import sphinx as _sphinx
+        projects = {"p1": build_system({"solo": "'doc'\nclass K:\n    'doc'\n    def f(self): 'd'\n"}),
+                    "p2": build_system({"m": shape_source([False, True, True])[0], "n": "def g(): 'd'\nx = 1\n'doc'\n",
+                                        "caf\u00e9": "'doc'\nclass \u00c9lan:\n    'doc'\n"})}
+        writers = {x: _sphinx.SphinxInventoryWriter(logger=Log(), project_name="p", project_version="1") for x in ("w1", "w2")}
+        st = {k: 0 for k in ("objects", "drift", "violations", "superseded_not_listed")}
+        for k, e in enumerate(w["events"], 1):
+            out = ctx.scratch / f"wr_{k}"
+            out.mkdir(exist_ok=True)
+            try:
+                writers[e["w"]].generate(projects[e["p"]].rootobjects, str(out))
+                judge_project(ctx, projects[e["p"]], "replay", {}, st, [], data=(out / "objects.inv").read_bytes())
+            except Exception as ex:
+                ctx.violations.append({"invariant": "GenerateNeverRaises", "observed": repr(ex)})
+        bad = bool(ctx.violations)
+        print("replay: generate() history", w["events"], "->", "still violated" if bad else "holds now")
     elif w.get("origin") == "history":
         inv_bytes = {n: HEADER + zlib.compress(f"pkg.n{n} py:module -1 pkg.n{n}.html -\n".encode()) for n in (1, 2)}
         obs = run_history(w["events"], inv_bytes)
